@@ -1,7 +1,7 @@
 """Entry point:  python3 -m pkv.main <ID> [quick|thorough] [--replay FILE]"""
 import json, os, sys, traceback
 from .common import Report, VERIF
-from .facts import extract, FactError, REPO, FLAVOURS, extra_flavours, stable_lints
+from .facts import extract, FactError, REPO, FLAVOURS, extra_flavours, stable_lints, toolchain_skew
 from .extract import Ctx
 from .mirtab import Undecided
 from . import rules_scancode as RS
@@ -201,6 +201,10 @@ def run(prop, tier):
                         'the stable toolchain warns that a call resolves to a local trait method only because the like-named library method is '
                         'still unstable there; on the analysed nightly it resolves to the library method, so the analysed program differs from '
                         'what users build: %s; fails closed' % h)
+        for d in toolchain_skew(REPO)[:6]:
+            rep.finding('BUILD-TOOLCHAIN call resolution differs: ' + d[:110],
+                        'the stable and the nightly compiler do not resolve the crate\'s calls identically (%s): the analysed nightly MIR is not '
+                        'the program users build with stable; fails closed' % d)
     except Exception as e:
         rep.note('stable-toolchain lint pass skipped: %r' % (e,))
     rep.analysed['build_flavours'] = [n for n, _ in flavours]
